@@ -423,6 +423,23 @@ func init() {
 	reg("(github.com/tokenized/pkg/bitcoin.Signature).Verify", "uninterpreted: Verify(sig, hash, key)", nil, pureUF("uf!SigVerify"))
 	reg("(*github.com/tokenized/pkg/bitcoin.Signature).Verify", "uninterpreted: Verify(sig, hash, key)", nil, pureUF("uf!SigVerify"))
 	reg("time.After", "a channel (opaque)", nil, pureOpaque)
+	// merkle validity of a block message: one uninterpreted predicate over the block value, whichever way it is called
+	blockValid := func(fr *Frame, st *State, c *ssa.CallCommon, args []Val, res ssa.Value) Val {
+		v := fr.v
+		f := v.smt.declareFun("uf!BlockMerkleValid", []string{"Iface"}, "Bool")
+		var x string
+		if c.IsInvoke() {
+			x = args[0].T
+		} else {
+			x = fmt.Sprintf("(mk-iface %d %s)", v.typeTag(c.Args[0].Type()), args[0].T)
+		}
+		out := Val{T: app(f, x)}
+		fr.setResult(res, out)
+		return out
+	}
+	reg("(*github.com/tokenized/pkg/wire.MsgParseBlock).IsMerkleRootValid", "uninterpreted predicate BlockMerkleValid(block): the block's transactions hash to its header's merkle root", nil, blockValid)
+	reg("(*github.com/tokenized/pkg/wire.MsgBlock).IsMerkleRootValid", "uninterpreted predicate BlockMerkleValid(block)", nil, blockValid)
+	regInvoke("github.com/tokenized/pkg/wire.Block.IsMerkleRootValid", "uninterpreted predicate BlockMerkleValid(block)", nil, blockValid)
 	reg("(*net.Dialer).DialContext", "network: returns an unconstrained (connection, error); writes nothing in the modelled heap", nil, pureOpaque)
 	regInvoke("net.Conn.Close", "network: unconstrained error; writes nothing in the modelled heap", nil, pureOpaque)
 	reg("github.com/tokenized/pkg/bitcoin.NextPublicKey", "when it succeeds: an uninterpreted function NextPublicKey(base, hash)", nil, pureUFErr("uf!NextPublicKey"))
